@@ -126,7 +126,7 @@ def c10Line (g : Option Graph) (pointers : List (Str × List Str)) (isAbstract :
        let (out, cm) : String × String := match rest with
          | out :: cm :: _ => (out, cm)
          | _ => ("", "cm:0")
-       model ++ "\t" ++ c10Verdict g e root.isNone isAbstract m.tag norm out cm
+       model ++ "\t" ++ c10Verdict g e e.atRoot isAbstract m.tag norm out cm
      | _, _, _, _ => "?\tbad:machinery:c10-parse")
   | _, _, [a, b, short] => a ++ " " ++ b ++ " " ++ short ++ "\t" ++ (if short == "noroot" then "ok" else "bad:machinery:" ++ short)
   | _, _, [short] =>
